@@ -422,7 +422,7 @@ func ResolveExternalLocation(
 	// Validate URL
 	if config.URLValidator != nil {
 		if err := config.URLValidator(locationURL); err != nil {
-			message := strings.ReplaceAll(err.Error(), locationURL, redactExternalURL(locationURL))
+			message := redactURLInMessage(err.Error(), locationURL)
 			return batch, meta, fmt.Errorf("URL rejected by validator: %s", message)
 		}
 	}
@@ -580,6 +580,37 @@ func redactExternalURL(rawURL string) string {
 	u.ForceQuery = false
 	u.Fragment = ""
 	return u.String()
+}
+
+// redactURLInMessage scrubs rawURL's secrets from a message produced by user
+// code (the URL validator). Validators commonly echo what they rejected, not
+// necessarily byte-for-byte: the re-serialised URL, or only the offending
+// component. Every such spelling of the query string and user info is
+// removed, not just the URL exactly as given.
+func redactURLInMessage(msg, rawURL string) string {
+	redacted := redactExternalURL(rawURL)
+	msg = strings.ReplaceAll(msg, rawURL, redacted)
+	u, err := url.Parse(rawURL)
+	if err != nil {
+		return msg
+	}
+	if s := u.String(); s != rawURL {
+		msg = strings.ReplaceAll(msg, s, redacted)
+	}
+	secrets := []string{u.RawQuery}
+	if u.User != nil {
+		secrets = append(secrets, u.User.String())
+		if pw, ok := u.User.Password(); ok {
+			secrets = append(secrets, pw)
+		}
+		secrets = append(secrets, u.User.Username())
+	}
+	for _, s := range secrets {
+		if s != "" {
+			msg = strings.ReplaceAll(msg, s, "<redacted>")
+		}
+	}
+	return msg
 }
 
 // batchMetadata extracts custom metadata from a record batch. The framework's
